@@ -130,7 +130,7 @@ class Signal(Command):
         recursive = props.get('recursive', False)
 
         for pid in pids:
-            if childpid:
+            if childpid is not None:
                 watcher.send_signal_child(pid, childpid, signum)
             elif children:
                 watcher.send_signal_children(pid, signum)
